@@ -39,7 +39,18 @@ type infoResult struct {
 func runCmd(bin string, args []string, stdin string, env []string, timeout time.Duration) (string, string, int) {
 	cmd := exec.Command(bin, args...)
 	cmd.Env = append(os.Environ(), env...)
-	if stdin != "\x00none" {
+	if strings.HasPrefix(stdin, "\x00file") {
+		// stdin redirected from a regular file ("prog < list.txt"), not a pipe
+		tf, err := os.CreateTemp("", "gfsIn")
+		if err != nil {
+			return "", err.Error(), -1
+		}
+		defer os.Remove(tf.Name())
+		tf.WriteString(stdin[len("\x00file"):])
+		tf.Seek(0, 0)
+		defer tf.Close()
+		cmd.Stdin = tf
+	} else if stdin != "\x00none" {
 		cmd.Stdin = strings.NewReader(stdin)
 	}
 	var so, se bytes.Buffer
@@ -101,8 +112,11 @@ func opSeqinfo(f []string) string {
 	stdin := ""
 	plainArgs := append([]string(nil), args...)
 	jsonArgs := append(append([]string(nil), args...), "--json")
-	if mode == "s" {
+	if mode == "s" || mode == "f" {
 		stdin = strings.Join(pats, "\n") + "\n"
+		if mode == "f" {
+			stdin = "\x00file" + stdin
+		}
 	} else {
 		jsonArgs = append(jsonArgs, pats...)
 		plainArgs = append(plainArgs, pats...)
@@ -186,7 +200,8 @@ func genSeqinfo(r *Rand, n int, thorough bool, emit func(string)) {
 			var p string
 			switch r.Intn(8) {
 			case 0:
-				p = r.Pick([]string{"bad#\nname", "plain.txt", "foo.0010.exr", "é.1-3#.exr", "x.1-5x0#.e", "#", "a.1-1y1@.b"})
+				p = r.Pick([]string{"bad#\nname", "plain.txt", "foo.0010.exr", "é.1-3#.exr", "x.1-5x0#.e", "#", "a.1-1y1@.b",
+					"a.1-3,7,5#.exr", "/d/b.1,5,3@.x", "s.2,6,4,3#.e", "u.10-8,4,6@@.x", "g.1-5#.exr", "g.5-1#.exr", "h.3,1,2#.e"})
 			case 1:
 				if len(pats) > 0 {
 					p = pats[r.Intn(len(pats))] // duplicate
@@ -203,7 +218,7 @@ func genSeqinfo(r *Rand, n int, thorough bool, emit func(string)) {
 		}
 		mode := "a"
 		if r.Chance(1, 3) {
-			mode = "s"
+			mode = r.Pick([]string{"s", "f"}) // stdin through a pipe / redirected from a regular file
 			for j, p := range pats {
 				if strings.Contains(p, "\n") {
 					pats[j] = "/d/b.1-3#.e"
@@ -214,7 +229,7 @@ func genSeqinfo(r *Rand, n int, thorough bool, emit func(string)) {
 		if r.Chance(1, 3) {
 			flags += "1"
 		}
-		if r.Chance(1, 4) {
+		if r.Chance(1, 3) {
 			flags += "v"
 		}
 		if flags == "" {
